@@ -55,6 +55,8 @@ def apply(s, op):
         else:
             arg = op[2]
         s.set_comp_phases(op[1], arg)
+    elif k == "an":  # an analysis call in the middle of an edit history (must not influence anything later)
+        quiet_call(s.solve, energy=True)
     else:
         raise KeyError(k)
 
@@ -98,7 +100,9 @@ def kfull(s, ghost):
     A = g.attrs
     regs = tuple((k, _pj(A[k]) if k != "pnames" else _pj(sorted((int(i), v) for i, v in A[k].items())))
                  for k in ["name", "nodes", "groups", "rails", "phase_conf", "phases", "pnames"])
-    return (nodes, regs, tuple(ghost))
+    # any instance attribute other than the graph and the documented per-analysis caches is hidden state: make it visible
+    extra = tuple(sorted((k, repr(v)[:200]) for k, v in s.__dict__.items() if k not in ("_g", "_parents", "_childs", "_topo_nodes", "_phase_lkup")))
+    return (nodes, regs, tuple(ghost), extra)
 
 
 def khash(k):
@@ -112,7 +116,7 @@ def ids(s):
 # ------------------------------------------------------------------------------------------------
 # op menu with deviation costs (DESIGN A.2)
 # ------------------------------------------------------------------------------------------------
-def ops(s, budget, letters="RCIM", phase_ops=True):
+def ops(s, budget, letters="RCIM", phase_ops=True, gone=(), analysis_op=False):
     A = s._g.attrs
     names = list(A["nodes"].keys())
     rails = [r for r in A["rails"].values() if r]
@@ -148,6 +152,16 @@ def ops(s, budget, letters="RCIM", phase_ops=True):
             if a != b:
                 add(0, ["ac", [a, b], "M", fresh, ""])
                 add(1, ["ac", [a, b], "R", fresh, ""])
+    if len(names) >= 3:  # three-input muxes (an input that is the child of another input included)
+        for a, b, c in itertools.permutations(names[:4], 3):
+            add(1, ["ac", [a, b, c], "M", fresh, ""])
+    for old in gone:  # re-adding a name that was deleted earlier in this history
+        if old not in used:
+            add(1, ["ac", names[0], "I", old, ""])
+            add(1, ["ac", names[-1], "C", old, ""])
+            add(1, ["as", old, ""])
+    if analysis_op:
+        add(1, ["an", "solve_energy"])
     if len(names) >= 1:
         add(1, ["ac", [names[0], names[0]], "M", fresh, ""])
         if rails:
@@ -171,6 +185,7 @@ def ops(s, budget, letters="RCIM", phase_ops=True):
         add(c + 1, ["dc", t, False])
     if phase_ops:
         add(1, ["sp", [["p", 1.0], ["q", 2.0]]])
+        add(1, ["sp", [["p", 5.0], ["q", 2.0], ["r", 1.0]]])
         add(2, ["sp", [["p", 1.0]]])
         add(2, ["sp", [["N/A", 1.0], ["q", 2.0]]])
         add(2, ["sp", []])
@@ -290,6 +305,8 @@ def model_apply(models, op):
                 out += variants
         elif k == "sp":
             m["phases"] = _pj(dict((a, b) for a, b in op[1]))
+            out.append(m)
+        elif k == "an":
             out.append(m)
         elif k == "cp":
             t = _owner(m, op[1])
@@ -421,7 +438,14 @@ def _expand(task):
     key0 = kfull(s0, g0)
     out = []
     memo = {}
-    for cost, op in ops(s0, B - used, letters, phase_ops)[part::nparts]:
+    live = set(s0._g.attrs["nodes"])
+    gone = []
+    for op_ in SEEDS[seed] + list(hist):
+        if op_[0] in ("as", "ac", "cc"):
+            nm = op_[1] if op_[0] == "as" else op_[3]
+            if nm not in live and nm not in gone:
+                gone.append(nm)
+    for cost, op in ops(s0, B - used, letters, phase_ops, gone, _CTX.get("analysis_op", False))[part::nparts]:
         s, g = replay(seed, hist)
         idb = ids(s)
         g2, exc = step(s, g, op)
@@ -438,9 +462,9 @@ def _check_state(task):
     return (seed, hist, _CTX["state_check"](seed, hist))
 
 
-def explore(run, seeds, D, B, letters="RCIM", trans_check=None, state_check=None, phase_ops=True, max_states=None, note_family="edits"):
+def explore(run, seeds, D, B, letters="RCIM", trans_check=None, state_check=None, phase_ops=True, max_states=None, note_family="edits", analysis_op=False):
     """Breadth-first search; returns dict of statistics.  Violating states / transitions are recorded on `run` and not expanded."""
-    _CTX.update(B=B, letters=letters, trans_check=trans_check, state_check=state_check, phase_ops=phase_ops)
+    _CTX.update(B=B, letters=letters, trans_check=trans_check, state_check=state_check, phase_ops=phase_ops, analysis_op=analysis_op)
     ctx = mp.get_context("fork")
     pool = ctx.Pool(NPROC) if NPROC > 1 else None
     mapper = (lambda f, xs: pool.imap_unordered(f, xs, chunksize=4)) if pool else (lambda f, xs: map(f, xs))
